@@ -507,6 +507,72 @@ Proof.
   cbn [dl_data app] in P4. rewrite P2, P4. cbn [dl_addr]. split; [apply mem_read_write|]. rewrite P6. reflexivity.
 Qed.
 
+(* a call that is refused before anything is sent (argument outside the documented domain, missing configuration) leaves the ECU,
+   the client state and the clock as they were: it cannot disturb what was written before it or what is read after it *)
+Lemma react_rejected cfg st e c now lat mk interp er :
+  (forall n s, run_inner cfg st c n s = single_request cfg st mk interp no_post n s) -> mk = inl er ->
+  exists out, react 4 cfg st e c now lat 0 [] = (out, st, now, [], e).
+Proof.
+  intros Hrun Hmk. cbn [react]. unfold run_call. rewrite Hrun. unfold single_request. rewrite Hmk.
+  cbn [sent_frames flat_map List.length Nat.ltb Nat.leb]. eexists. reflexivity.
+Qed.
+
+(* ---- any sequence of writes through the client: afterwards every identifier holds the value of the LAST write to it (or what it held
+   before), and a read through the client returns it ------------------------------------------------------------------------- *)
+Fixpoint client_writes (cfg : config) (st : cstate) (e : ecu) (ws : list (Z * bytes)) (now lat : Z) : ecu :=
+  match ws with
+  | [] => e
+  | (d, v) :: tl =>
+    let '(_, st', t, _, e') := react 4 cfg st e (CWriteDid d v) now lat 0 [] in
+    client_writes cfg st' e' tl t lat
+  end.
+
+Definition last_write (ws : list (Z * bytes)) (did : Z) : option bytes :=
+  fold_left (fun acc '(d, v) => if d =? did then Some v else acc) ws None.
+
+Definition wf_write (cfg : config) (w : Z * bytes) : Prop :=
+  0 <= fst w <= 65535 /\ exists sh, fetch_codec (pc_of cfg) (fst w) = inr sh /\ (sh < 0 \/ Z.of_nat (List.length (snd w)) = sh).
+
+Lemma last_write_acc ws did acc :
+  fold_left (fun a '(d, v) => if d =? did then Some v else a) ws acc
+  = match last_write ws did with Some x => Some x | None => acc end.
+Proof.
+  unfold last_write. revert acc. induction ws as [|[d v] tl IH]; intros acc; [reflexivity|]. cbn [fold_left].
+  rewrite IH. rewrite (IH (if d =? did then Some v else None)).
+  destruct (fold_left _ tl None); [reflexivity|]. destruct (d =? did); reflexivity.
+Qed.
+
+Theorem client_writes_last cfg st lat : plain st -> in_first_window cfg st (1 + lat) ->
+  forall ws e now, Forall (wf_write cfg) ws ->
+  forall did, abs_did (client_writes cfg st e ws now lat) did = match last_write ws did with Some v => Some v | None => abs_did e did end.
+Proof.
+  intros Hp Hw. induction ws as [|[d v] tl IH]; intros e now Hf did; [reflexivity|].
+  inversion Hf as [|? ? (Hd & Hc) Hf']; subst. cbn [fst snd] in Hd, Hc.
+  cbn [client_writes].
+  pose proof (write_did_composed cfg st e d v now lat Hp Hw Hd Hc) as H.
+  destruct (react 4 cfg st e (CWriteDid d v) now lat 0 []) as [[[[out st'] t] tr] e'].
+  destruct H as (_ & -> & _ & _ & Habs & Hoth & _).
+  rewrite (IH e' t Hf' did). unfold last_write at 2. cbn [fold_left]. rewrite last_write_acc.
+  destruct (last_write tl did); [reflexivity|].
+  destruct (d =? did) eqn:E.
+  - assert (d = did) by lia. subst. exact Habs.
+  - apply Hoth. lia.
+Qed.
+
+Theorem read_after_writes cfg st lat : plain st -> in_first_window cfg st (1 + lat) ->
+  forall ws e now now2 did v, Forall (wf_write cfg) ws -> last_write ws did = Some v ->
+  0 < did <= 65535 -> fetch_codec (pc_of cfg) did = inr (Z.of_nat (List.length v)) ->
+  let e1 := client_writes cfg st e ws now lat in
+  let '(out, _, _, _, e2) := react 4 cfg st e1 (CReadDids [did]) now2 lat 0 [] in
+  (exists r, out = ORet (Some (r, enc_values [(did, v)]))) /\ e2 = e1.
+Proof.
+  intros Hp Hw ws e now now2 did v Hf Hl Hd Hc. cbv zeta.
+  pose proof (client_writes_last cfg st lat Hp Hw ws e now Hf did) as Ha. rewrite Hl in Ha.
+  pose proof (read_did_composed cfg st (client_writes cfg st e ws now lat) did v now2 lat Hp Hw Hd Hc Ha) as H.
+  destruct (react 4 cfg st (client_writes cfg st e ws now lat) (CReadDids [did]) now2 lat 0 []) as [[[[out st'] t] tr] e2].
+  destruct H as (Hr & _ & _ & _ & He). split; assumption.
+Qed.
+
 (* ---- non-vacuity: the premises are inhabited ----------------------------------------------------------------------------- *)
 Example nv_plain_window : plain st_init /\ in_first_window cfg_default st_init (1 + 500).
 Proof. split; [split; reflexivity|]. unfold in_first_window. cbn. repeat split; try lia. intros o H. injection H as <-. lia. Qed.
